@@ -132,6 +132,10 @@ def zbool(v):
         return z3.BoolVal(v)
     if isinstance(v, z3.BoolRef):
         return v
+    if isinstance(v, Unknown):
+        # an uninterpreted value (skeleton profile, `Any`, a comparison the value domain cannot decide) where a truth
+        # value is needed as a term: not a verdict and not an engine failure -- the obligation / entry is undecided
+        raise Unsupported(f'truth value of an uninterpreted value needed as a term: {v!r}')
     raise EngineError(f'not a bool: {v!r}')
 
 
